@@ -31,7 +31,7 @@ def run(run):
         c02_.attrstride(run, 'PARTITION')               # a segment made while a log is open has the same user attributes as one made before or after (shared with C02)
     c09.noglobal_ast(run, E.fx)                     # no mutable static storage, in either VM driver (shared with C09)
     try:
-        c09.telescope(run)                          # the telemetry build's allocation category is back to null after every load (shared with C09)
+        c09.telescope(run, reach)                         # the telemetry build's allocation category is back to null after every load (shared with C09)
     except Exception as ex:
         run.broken('NOGLOBAL', 'telemetry scope guard', str(ex), '')
     from .util import share as _share
@@ -39,6 +39,7 @@ def run(run):
         run._sharing = True
         try:
             _share(run, 'c16', ['NOESCAPE'], 'LAZYFILL')        # what a face caches does not point into a table it has handed back: released memory reads as whatever was allocated since (shared with C16)
+            _share(run, 'c13', ['PLANEROUTE'], 'LAZYFILL')      # a cached cmap block holds no cell that is as malloc returned it (shared with C13)
             _share(run, 'c10', ['LOADERSIB'], 'LAZYFILL')       # a glyph loaded on demand is the glyph the preloading loader would have stored (shared with C10)
         finally:
             run._sharing = False
